@@ -14,6 +14,10 @@
  *                compiled into this binary, once per option setting.  The oracle is computed from the interval list
  *                and the program text only.
  *
+ *   large      : next to the exhaustive enumeration a fixed family of hand-shaped large executions (hundreds of tasks:
+ *                wide help-first / work-first, deep, long; see "large executions" below), one schedule each, through
+ *                the same replay, oracle and option grids.
+ *
  * The component file defines   static void component_case(void)   (what to check for the case described by CASE)
  * and calls dag_main().
  */
@@ -64,39 +68,45 @@ void __assert_fail(const char * e, const char * f, unsigned l, const char * fn) 
   fprintf(stderr, "assert %s %s:%u\n", e, f, l); fflush(NULL); _exit(66);
 }
 
-/* ------------------------------------------------------------------ programs */
-#define MAXT 4
-#define MAXSEC 4
-#define MAXOPS 16
-#define MAXIV 20
+/* ------------------------------------------------------------------ programs
+ * All arrays grow on demand: the enumerated programs have at most 4 tasks and 20 intervals, the hand-shaped large
+ * executions (see "large executions" below) up to 1001 tasks and a few thousand intervals. */
+#define GROW(ptr, cap, need) do { if ((need) > (cap)) { long nc_ = (cap) ? (cap) : 8; while (nc_ < (need)) nc_ *= 2; \
+      (ptr) = realloc((ptr), sizeof *(ptr) * nc_); memset((ptr) + (cap), 0, sizeof *(ptr) * (nc_ - (cap))); (cap) = nc_; } } while (0)
 enum { OP_BEGIN, OP_CREATE, OP_OTHER, OP_WAIT, OP_END };
 typedef struct { int kind, child, sec, id; } op_t;            /* id: number of the interval this op ends (not for BEGIN) */
-typedef struct { int nops; op_t ops[MAXOPS]; int parent, parent_sec; } ptask_t;
+typedef struct { int nops; long cap; op_t * ops; int parent, parent_sec; } ptask_t;
 typedef struct {
-  char str[48];
+  char name[48];                            /* what the key calls it: the string itself, or family:size of a large execution */
+  const char * str;                         /* the program text (owned by the caller) */
   int ntasks, nsecs, niv, ncreate, nwait, nother, nimplicit;
-  ptask_t t[MAXT];
-  int sec_depth[MAXSEC], sec_task[MAXSEC];
-  int iv_task[MAXIV], iv_kind[MAXIV];       /* by interval id: owning task, OP_* that ends it */
+  int large, lkind, lsize, lW;              /* large executions: family, size, workers */
+  long capt, caps, capv, capk;
+  ptask_t * t;
+  int * sec_depth;
+  int * iv_task, * iv_kind;                 /* by interval id: owning task, OP_* that ends it */
 } prog_t;
 
 static const char * P_s; static prog_t * P_p; static int P_err;
+static int p_new_task(int parent, int parent_sec) {
+  int ti = P_p->ntasks++; GROW(P_p->t, P_p->capt, P_p->ntasks);
+  P_p->t[ti].nops = 0; P_p->t[ti].parent = parent; P_p->t[ti].parent_sec = parent_sec; return ti;
+}
 static void p_op(int ti, int kind, int child, int sec) {
   ptask_t * t = &P_p->t[ti];
-  if (t->nops >= MAXOPS) { P_err = 1; return; }
+  GROW(t->ops, t->cap, t->nops + 2);        /* + 2: the simulator peeks at the op behind a BEGIN */
   op_t * o = &t->ops[t->nops++]; o->kind = kind; o->child = child; o->sec = sec; o->id = -1;
-  if (kind != OP_BEGIN) { if (P_p->niv >= MAXIV) { P_err = 1; return; } o->id = P_p->niv; P_p->iv_task[o->id] = ti; P_p->iv_kind[o->id] = kind; P_p->niv++; }
+  if (kind != OP_BEGIN) { GROW(P_p->iv_task, P_p->capv, P_p->niv + 1); o->id = P_p->niv; P_p->iv_task[o->id] = ti; P_p->niv++; }
 }
 static void p_task(int ti);
 static void p_section(int ti, int depth) {
-  if (P_p->nsecs >= MAXSEC) { P_err = 1; return; }
-  int s = P_p->nsecs++; P_p->sec_depth[s] = depth; P_p->sec_task[s] = ti;
+  int s = P_p->nsecs++; GROW(P_p->sec_depth, P_p->caps, P_p->nsecs);
+  P_p->sec_depth[s] = depth;
   p_op(ti, OP_BEGIN, -1, s);
   while (!P_err) {
     char c = *P_s;
     if (c == 'c' && P_s[1] == '{') {
-      if (P_p->ntasks >= MAXT) { P_err = 1; return; }
-      int ch = P_p->ntasks++; P_p->t[ch].parent = ti; P_p->t[ch].parent_sec = s; P_p->ncreate++;
+      int ch = p_new_task(ti, s); P_p->ncreate++;
       p_op(ti, OP_CREATE, ch, s); P_s += 2; p_task(ch);
     } else if (c == 'o') { p_op(ti, OP_OTHER, -1, s); P_p->nother++; P_s++; }
     else if (c == '[') { P_s++; p_section(ti, depth + 1); }
@@ -114,11 +124,16 @@ static void p_task(int ti) {
     else { P_err = 1; return; }
   }
 }
+/* p keeps its arrays from one parse to the next */
 static int prog_parse(prog_t * p, const char * s) {
-  memset(p, 0, sizeof *p); if (strlen(s) >= sizeof p->str) return 0;
-  strcpy(p->str, s); P_s = s; P_p = p; P_err = 0; p->ntasks = 1; p->t[0].parent = -1; p->t[0].parent_sec = -1;
+  p->ntasks = p->nsecs = p->niv = p->ncreate = p->nwait = p->nother = p->nimplicit = 0; p->large = 0;
+  snprintf(p->name, sizeof p->name, "%s", s); p->str = s; P_s = s; P_p = p; P_err = 0;
+  p_new_task(-1, -1);
   p_task(0);
   if (P_err) return 0;
+  /* interval kinds by id */
+  GROW(p->iv_kind, p->capk, p->niv + 1);
+  for (int ti = 0; ti < p->ntasks; ti++) for (int i = 0; i < p->t[ti].nops; i++) if (p->t[ti].ops[i].kind != OP_BEGIN) p->iv_kind[p->t[ti].ops[i].id] = p->t[ti].ops[i].kind;
   /* top-level sections that may be opened implicitly (no dr_begin_section: the first create / wait opens them) */
   for (int ti = 0; ti < p->ntasks; ti++) for (int i = 0; i + 1 < p->t[ti].nops; i++) {
     op_t * o = &p->t[ti].ops[i];
@@ -194,10 +209,9 @@ static const char * const CALLN[] = { "dr_start", "dr_begin_section", "dr_enter_
 typedef struct { int call, worker, task, line, child; long t; } sc_t;
 typedef struct { int task, opid, kind, worker, sline, eline; long t0, t1; } iv_t;
 #define MAXCH 24
-#define MAXSC 96
 typedef struct {
-  int W, nsc; sc_t sc[MAXSC];
-  int niv; iv_t iv[MAXIV];                       /* in the order the intervals END in the script */
+  int W, nsc; sc_t * sc; long capsc;
+  int niv; iv_t * iv; long capiv;                /* in the order the intervals END in the script */
   int nch, ch[MAXCH], nalt[MAXCH];               /* the choice vector of this schedule */
   int nsteal; char steals[80];                   /* readable: T<task>@<c|o><interval id>>w<thief> */
   long t_end;
@@ -206,9 +220,12 @@ typedef struct {
 #define T0 100L                                  /* the recorder requires clock values > 0 */
 enum { TS_NEW, TS_RUN, TS_DEQUE, TS_WAIT, TS_DONE };
 static const prog_t * DP; static timing_t DT; static int DW, DIMP, DMAXSTEAL; static sched_t * DS;
-static struct { int pc, worker, state, sline; long t0; } dts[MAXT];
-static struct { int cur; long tnext; int dq[MAXT], ndq; } dws[NWORKERS_MAX];
-static int d_out[MAXSEC], d_waiter[MAXSEC], d_serial, d_steals, d_preflen, d_err, d_done, d_used[NWORKERS_MAX];
+typedef struct { int pc, worker, state, sline; long t0; } dts_t;
+static dts_t * dts; static long dts_cap;
+static struct { int cur; long tnext; int * dq; long dqcap; int ndq; } dws[NWORKERS_MAX];
+static int * d_out, * d_waiter; static long d_outcap, d_waitcap;
+static int d_serial, d_steals, d_preflen, d_err, d_done, d_used[NWORKERS_MAX];
+static int DPOLICY;      /* 0: every alternative is an enumerated choice; 1 (large executions): always the first steal / migration on offer */
 /* the idle workers that may take work from (or a task coming back on) worker `from': every idle worker that has
    already run something, but of the workers that never ran anything only the lowest-numbered one (they are
    interchangeable: the recorder treats worker ids as array indices and nothing else) */
@@ -220,6 +237,7 @@ static int d_idle_set(int from, int * idle) {
 
 static int d_choose(int n) {
   if (n <= 1) return 0;
+  if (DPOLICY) return 1;
   if (DS->nch >= MAXCH) { d_err = 1; return 0; }
   int i = DS->nch++;
   if (i >= d_preflen) DS->ch[i] = 0;
@@ -228,7 +246,7 @@ static int d_choose(int n) {
   return DS->ch[i];
 }
 static void d_emit(int call, int w, int task, int line, int child, long t) {
-  if (DS->nsc >= MAXSC) { d_err = 1; return; }
+  GROW(DS->sc, DS->capsc, DS->nsc + 1);
   DS->sc[DS->nsc++] = (sc_t){ call, w, task, line, child, t };
 }
 static int d_next_len(int task) {
@@ -245,6 +263,7 @@ static void d_begin_iv(int call, int task, int w, long t) {
   dws[w].cur = task; dws[w].tnext = t + d_next_len(task);
 }
 static void d_note_steal(int task, char how, int id, int thief) {
+  if (DPOLICY) { DS->nsteal++; d_steals++; return; }
   int o = strlen(DS->steals);
   snprintf(DS->steals + o, sizeof DS->steals - o, "%sT%d@%c%d>w%d", o ? "," : "", task, how, id, thief);
   DS->nsteal++; d_steals++;
@@ -299,7 +318,7 @@ static void d_fire(int w) {
     dts[T].pc++;
   }
   dts[T].pc++;
-  if (DS->niv >= MAXIV) { d_err = 1; return; }
+  GROW(DS->iv, DS->capiv, DS->niv + 1);
   DS->iv[DS->niv++] = (iv_t){ T, op.id, op.kind, w, dts[T].sline, 100 + op.id, dts[T].t0, t };
   switch (op.kind) {
   case OP_CREATE: {
@@ -345,14 +364,15 @@ static int sim_run(const prog_t * p, timing_t tm, int W, int imp, int maxsteal, 
   DP = p; DT = tm; DW = W; DIMP = imp; DMAXSTEAL = maxsteal; DS = s; d_preflen = preflen;
   s->W = W; s->nsc = 0; s->niv = 0; s->nch = 0; s->nsteal = 0; s->steals[0] = 0;
   d_serial = 0; d_steals = 0; d_err = 0; d_done = 0;
-  memset(dts, 0, sizeof dts); memset(d_used, 0, sizeof d_used);
-  for (int w = 0; w < NWORKERS_MAX; w++) { dws[w].cur = -1; dws[w].ndq = 0; dws[w].tnext = 0; }
-  for (int i = 0; i < MAXSEC; i++) { d_out[i] = 0; d_waiter[i] = -1; }
+  GROW(dts, dts_cap, p->ntasks); memset(dts, 0, sizeof(dts_t) * p->ntasks); memset(d_used, 0, sizeof d_used);
+  for (int w = 0; w < NWORKERS_MAX; w++) { GROW(dws[w].dq, dws[w].dqcap, p->ntasks); dws[w].cur = -1; dws[w].ndq = 0; dws[w].tnext = 0; }
+  GROW(d_out, d_outcap, p->nsecs + 1); GROW(d_waiter, d_waitcap, p->nsecs + 1);
+  for (int i = 0; i < p->nsecs; i++) { d_out[i] = 0; d_waiter[i] = -1; }
   d_begin_iv(C_START, 0, 0, T0);
   for (int guard = 0; !d_done && !d_err; guard++) {
     int w = -1;
     for (int x = 0; x < W; x++) if (dws[x].cur >= 0 && (w < 0 || dws[x].tnext < dws[w].tnext)) w = x;
-    if (w < 0 || guard > 200) { d_err = 1; break; }
+    if (w < 0 || guard > 4 * p->niv + 200) { d_err = 1; break; }
     d_fire(w);
   }
   for (int i = 0; i < p->ntasks; i++) if (dts[i].state != TS_DONE) d_err = 1;
@@ -365,6 +385,69 @@ static int sched_next(sched_t * s, int * preflen) {
   while (i >= 0 && s->ch[i] + 1 >= s->nalt[i]) i--;
   if (i < 0) return 0;
   s->ch[i]++; *preflen = i + 1; return 1;
+}
+
+/* ------------------------------------------------------------------ help-first execution (large executions only)
+ * The root task never leaves a create: it issues all creates of a section back to back on its worker and only then
+ * waits.  The created tasks (leaf tasks: optional `other's, then end) are started afterwards, round-robin on the
+ * other workers, one after the other on each; the worker that ends the last of them resumes the root behind the wait.
+ * While the root waits, every created task is ready or running: the replay of such a DAG has WIDTH events pending. */
+static int sim_helpfirst(const prog_t * p, timing_t tm, int W, int imp, sched_t * s) {
+  if (W < 2) return 0;
+  DS = s; d_err = 0;
+  s->W = W; s->nsc = 0; s->niv = 0; s->nch = 0; s->nsteal = 0; snprintf(s->steals, sizeof s->steals, "help-first");
+  int serial = 0, cw = 0;                       /* cw: the worker the root is on */
+  long tfree[NWORKERS_MAX] = { 0 }, t = T0;     /* tfree[x]: when worker x has finished what it was given */
+  static int * pend; static long pendcap; int npend = 0;
+  const ptask_t * rt = &p->t[0];
+  int sline = 1000 + serial++; long t0 = t;
+  d_emit(C_START, cw, 0, sline, -1, t);
+  for (int i = 0; i < rt->nops && !d_err; i++) {
+    op_t op = rt->ops[i];
+    if (op.kind == OP_BEGIN) continue;
+    long tf = t0 + iv_len(tm.pat, op.id);
+    { int j = i;                                  /* the BEGINs directly in front of this op, in order */ while (j > 0 && rt->ops[j - 1].kind == OP_BEGIN) j--;
+      for (; j < i; j++) { int nk = rt->ops[j + 1].kind; int implicit = imp && p->sec_depth[rt->ops[j].sec] == 1 && (nk == OP_CREATE || nk == OP_WAIT); if (!implicit) d_emit(C_BEGIN, cw, 0, 0, -1, tf); } }
+    GROW(s->iv, s->capiv, s->niv + 1);
+    s->iv[s->niv++] = (iv_t){ 0, op.id, op.kind, cw, sline, 100 + op.id, t0, tf };
+    switch (op.kind) {
+    case OP_CREATE:
+      d_emit(C_ENTER_CREATE, cw, 0, 100 + op.id, op.child, tf);
+      GROW(pend, pendcap, npend + 1); pend[npend++] = op.child;
+      t0 = tf + tm.gap; sline = 1000 + serial++; d_emit(C_RET_CREATE, cw, 0, sline, -1, t0);
+      break;
+    case OP_OTHER:
+      d_emit(C_ENTER_OTHER, cw, 0, 100 + op.id, -1, tf);
+      t0 = tf + tm.gap; sline = 1000 + serial++; d_emit(C_RET_OTHER, cw, 0, sline, -1, t0);
+      break;
+    case OP_WAIT: {
+      d_emit(C_ENTER_WAIT, cw, 0, 100 + op.id, -1, tf);
+      long tlast = tf; int xlast = cw, rr = 0;
+      tfree[cw] = tf;
+      for (int k = 0; k < npend; k++) {
+	int C = pend[k], x; const ptask_t * ct = &p->t[C];
+	do { x = rr++ % W; } while (x == cw);
+	long c0 = (tfree[x] > tf ? tfree[x] : tf) + tm.gap; int csl = 1000 + serial++;
+	d_emit(C_START_TASK, x, C, csl, -1, c0);
+	for (int q = 0; q < ct->nops && !d_err; q++) {
+	  op_t co = ct->ops[q]; long cf = c0 + iv_len(tm.pat, co.id);
+	  if (co.kind != OP_OTHER && co.kind != OP_END) { d_err = 1; break; }      /* leaf tasks only */
+	  GROW(s->iv, s->capiv, s->niv + 1);
+	  s->iv[s->niv++] = (iv_t){ C, co.id, co.kind, x, csl, 100 + co.id, c0, cf };
+	  if (co.kind == OP_OTHER) { d_emit(C_ENTER_OTHER, x, C, 100 + co.id, -1, cf); c0 = cf + tm.gap; csl = 1000 + serial++; d_emit(C_RET_OTHER, x, C, csl, -1, c0); }
+	  else { d_emit(C_END_TASK, x, C, 100 + co.id, -1, cf); tfree[x] = cf; if (cf >= tlast) { tlast = cf; xlast = x; } }
+	}
+      }
+      npend = 0;
+      cw = xlast; t0 = tlast + tm.gap; sline = 1000 + serial++; d_emit(C_RET_WAIT, cw, 0, sline, -1, t0);
+      break;
+    }
+    case OP_END: d_emit(C_STOP, cw, 0, 100 + op.id, -1, tf); s->t_end = tf; break;
+    default: d_err = 1;
+    }
+  }
+  if (s->niv != p->niv || npend) d_err = 1;
+  return !d_err;
 }
 
 /* ------------------------------------------------------------------ the oracle: from the program text and the
@@ -384,8 +467,10 @@ enum { EK_END, EK_CREATE, EK_CREATE_CONT, EK_WAIT_CONT, EK_OTHER_CONT, EK_MAX };
 static const char * const EKN[EK_MAX] = { "end", "create", "create_cont", "wait_cont", "other_cont" };
 typedef struct { long work, crit, elapsed; long nodes[4]; /* create wait other end */ long edges[EK_MAX]; long nsections, ntasks; } oracle_t;
 static int oracle_compute(const prog_t * p, const sched_t * s, oracle_t * o) {
-  long len[MAXIV], dist[MAXIV]; int seen[MAXIV]; memset(seen, 0, sizeof seen);
-  int npred[MAXIV], pred[MAXIV][4]; memset(npred, 0, sizeof npred);
+  static long * len, * dist; static int * seen, * npred, * pstart, * ea, * eb, * pred; static long c1, c2, c3, c4, c5, c6, c7, c8;
+  long n = p->niv, ne = 0;
+  GROW(len, c1, n + 1); GROW(dist, c2, n + 1); GROW(seen, c3, n + 1); GROW(npred, c4, n + 1); GROW(pstart, c5, n + 2);
+  memset(seen, 0, sizeof(int) * (n + 1)); memset(npred, 0, sizeof(int) * (n + 1));
   memset(o, 0, sizeof *o);
   for (int i = 0; i < s->niv; i++) {
     const iv_t * v = &s->iv[i];
@@ -394,7 +479,7 @@ static int oracle_compute(const prog_t * p, const sched_t * s, oracle_t * o) {
     switch (v->kind) { case OP_CREATE: o->nodes[0]++; break; case OP_WAIT: o->nodes[1]++; break; case OP_OTHER: o->nodes[2]++; break; case OP_END: o->nodes[3]++; break; default: return 0; }
   }
   for (int i = 0; i < p->niv; i++) if (!seen[i]) return 0;
-#define ADD_EDGE(k, a, b) do { if ((a) >= (b) || npred[b] >= 4) return 0; pred[b][npred[b]++] = (a); o->edges[k]++; } while (0)
+#define ADD_EDGE(k, a, b) do { if ((a) >= (b)) return 0; GROW(ea, c6, ne + 1); GROW(eb, c7, ne + 1); ea[ne] = (a); eb[ne] = (b); ne++; npred[b]++; o->edges[k]++; } while (0)
   for (int ti = 0; ti < p->ntasks; ti++) {
     const ptask_t * pt = &p->t[ti];
     int prev = -1, prevk = -1;
@@ -418,12 +503,16 @@ static int oracle_compute(const prog_t * p, const sched_t * s, oracle_t * o) {
     }
   }
 #undef ADD_EDGE
-  for (int i = 0; i < p->niv; i++) {              /* interval ids are a topological order (serial elision) */
-    long m = 0; for (int j = 0; j < npred[i]; j++) if (dist[pred[i][j]] > m) m = dist[pred[i][j]];
+  GROW(pred, c8, ne + 1);
+  pstart[0] = 0; for (long i = 0; i < n; i++) { pstart[i + 1] = pstart[i] + npred[i]; npred[i] = 0; }
+  for (long e = 0; e < ne; e++) pred[pstart[eb[e]] + npred[eb[e]]++] = ea[e];
+  for (long i = 0; i < n; i++) {                  /* interval ids are a topological order (serial elision) */
+    long m = 0; for (int j = pstart[i]; j < pstart[i + 1]; j++) if (dist[pred[j]] > m) m = dist[pred[j]];
     dist[i] = m + len[i]; if (dist[i] > o->crit) o->crit = dist[i];
   }
   o->elapsed = s->t_end - T0; o->nsections = p->nsecs; o->ntasks = p->ntasks;
   /* sanity of the simulated execution itself: no worker runs two intervals at once */
+  if (s->niv > 4000) return 0;                    /* the pairwise test below is quadratic */
   for (int i = 0; i < s->niv; i++) for (int j = i + 1; j < s->niv; j++) if (s->iv[i].worker == s->iv[j].worker) {
 	const iv_t * a = &s->iv[i], * b = &s->iv[j];
 	if (a->t0 < b->t1 && b->t0 < a->t1) return 0;
@@ -479,17 +568,19 @@ static char SCRATCH[200];      /* file prefix handed to the recorder: build/<com
 
 /* hook stream: what the recorder tells the user about every interval */
 typedef struct { int hook, kind, worker; long t0, t1, eline; } hk_t;
-static hk_t HK[MAXSC]; static int NHK;
+static hk_t * HK; static long HKCAP; static int NHK;
 static long HKN[9];
 #define HOOKFN(name, idx, isiv) static int hook_##name(dr_dag_node * n) { HKN[idx]++; \
-    if (isiv && NHK < MAXSC) HK[NHK++] = (hk_t){ idx, n->info.kind, n->info.worker, (long)n->info.start.t, (long)n->info.end.t, n->info.end.pos.line }; return 0; }
+    if (isiv && NHK < HKCAP) HK[NHK++] = (hk_t){ idx, n->info.kind, n->info.worker, (long)n->info.start.t, (long)n->info.end.t, n->info.end.pos.line }; return 0; }
 HOOKFN(start_task, 0, 0) HOOKFN(begin_section, 1, 0) HOOKFN(enter_create_task, 2, 1) HOOKFN(return_from_create_task, 3, 0)
 HOOKFN(enter_wait_tasks, 4, 1) HOOKFN(return_from_wait_tasks, 5, 0) HOOKFN(enter_other, 6, 1) HOOKFN(return_from_other, 7, 0) HOOKFN(end_task, 8, 1)
 
 static long N_CALLS;
 static void replay_script(void) {
   const sched_t * s = CASE.s;
-  dr_dag_node * tnode[MAXT] = { 0 }, * cnode[MAXT] = { 0 };
+  static dr_dag_node ** tnode, ** cnode; static long tcap, ccap; int nt = CASE.p->ntasks;
+  GROW(tnode, tcap, nt); GROW(cnode, ccap, nt); memset(tnode, 0, sizeof(void *) * nt); memset(cnode, 0, sizeof(void *) * nt);
+  GROW(HK, HKCAP, s->niv + 8);
   dr_options opts[1];
   *opts = dr_options_default_values;              /* not dr_options_default(): the environment must not leak in */
   opts->dag_file_prefix = SCRATCH;
@@ -570,6 +661,7 @@ typedef struct {
   int ncls, cls_overflow; cls_t cls[MAXCLS];
   int in_case, done, engine_error; char cur_key[220]; pos_t pos;
   char sample[3][220]; int nsample;
+  long large; char large_sample[220];
   long aux[8];
 } slot_t;
 static slot_t * SLOT;           /* this worker's slot (shared with the pool parent) */
@@ -631,8 +723,8 @@ static void case_key(void) {
   opt_str(&CASE.opt, ob, sizeof ob);
   sb[0] = 0; for (int i = 0; i < s->nch; i++) o += snprintf(sb + o, sizeof sb - o, "%s%d", i ? "." : "", s->ch[i]);
   if (!s->nch) strcpy(sb, "-");
-  snprintf(CASE.key, sizeof CASE.key, "P=%s T=%d/%d B=%c W=%d S=%s(%s) O=%s F=%d", CASE.p->str[0] ? CASE.p->str : "(root-only)", CASE.tm.pat, CASE.tm.gap, CASE.imp ? 'i' : 'e',
-	   CASE.W, sb, s->nsteal ? s->steals : "no-steal", ob, CASE.nf);
+  snprintf(CASE.key, sizeof CASE.key, "P=%s T=%d/%d B=%c W=%d S=%s(%s) O=%s F=%d", CASE.p->name[0] ? CASE.p->name : "(root-only)", CASE.tm.pat, CASE.tm.gap, CASE.imp ? 'i' : 'e',
+	   CASE.W, sb, s->steals[0] ? s->steals : "no-steal", ob, CASE.nf);
 }
 /* one case: replay under the trap, let the component judge, clean up.  A failed internal check of the recorder
    (they are only compiled to act at chk_level >= 1) is a finding; the case is then repeated with the checks off,
@@ -683,18 +775,75 @@ static int VERBOSE_CASE;
 /* the per-(program, timing, W, schedule) values of option 0, kept for the cross-grid comparison */
 static long BASE[40]; static int HAVE_BASE;
 
+/* ------------------------------------------------------------------ large executions: a fixed, hand-shaped family
+ * next to the exhaustive enumeration (NOT enumerated: one schedule each), judged by the same oracles under the same
+ * option / conversion grids.  They reach what 4 tasks cannot: hundreds of nodes ready at once, deep and long graphs.
+ *   wide-hf:N  one section with N creates issued back to back by worker 0 (help-first), the N leaf tasks (every second
+ *              one with an `other') started afterwards round-robin on workers 1..W-1, then the wait       key S=-(help-first)
+ *   wide-wf:N  the same program in work-first order, the parent's continuation (or any deque entry) taken by an idle
+ *              worker whenever one is idle: a steal at practically every create
+ *   deep:N     a chain of N nested creates, each task = [other,] section { create next; wait }, same steal policy
+ *   long:N     one task with N sections in sequence, each { create a leaf task; wait }, an `other' between sections,
+ *              same steal policy (W = 1: serial)
+ * Index 0..NLARGE-1 of the work counter are these (largest work first), the enumerated programs follow. */
+enum { LK_WIDE_HF, LK_WIDE_WF, LK_DEEP, LK_LONG, LK_N };
+static const char * const LKN[LK_N] = { "wide-hf", "wide-wf", "deep", "long" };
+typedef struct { int kind, size, W; } large_t;
+static large_t LARGE[64]; static int NLARGE;
+static void make_large(int thorough) {
+  static const int WIDTH[5] = { 1000, 300, 150, 101, 40 }, DEPTH[2] = { 200, 50 }, LEN[2] = { 400, 120 };
+  NLARGE = 0;
+  for (int i = thorough ? 0 : 1; i < 5; i++) for (int W = 3; W >= 2; W--) { LARGE[NLARGE++] = (large_t){ LK_WIDE_HF, WIDTH[i], W }; LARGE[NLARGE++] = (large_t){ LK_WIDE_WF, WIDTH[i], W }; }
+  for (int i = 0; i < 2; i++) for (int W = 3; W >= 2; W--) LARGE[NLARGE++] = (large_t){ LK_DEEP, DEPTH[i], W };
+  for (int i = 0; i < 2; i++) for (int W = 2; W >= 1; W--) LARGE[NLARGE++] = (large_t){ LK_LONG, LEN[i], W };
+}
+static const char * large_text(int kind, int size) {
+  static char * b; static long cap; long n = 0;
+  GROW(b, cap, 8L * size + 16);
+  switch (kind) {
+  case LK_WIDE_HF: case LK_WIDE_WF:
+    b[n++] = '['; for (int j = 0; j < size; j++) n += sprintf(b + n, j % 2 ? "c{o}" : "c{}"); b[n++] = ']'; break;
+  case LK_DEEP:
+    for (int j = 0; j < size; j++) n += sprintf(b + n, j % 3 == 1 ? "o[c{" : "[c{");
+    for (int j = 0; j < size; j++) n += sprintf(b + n, "}]");
+    break;
+  case LK_LONG:
+    for (int j = 0; j < size; j++) n += sprintf(b + n, "%s[%s]", j ? "o" : "", j % 2 ? "c{o}" : "c{}");
+    break;
+  }
+  b[n] = 0; return b;
+}
+static int large_parse(prog_t * p, int kind, int size, int W) {
+  if (!prog_parse(p, large_text(kind, size))) return 0;
+  p->large = 1; p->lkind = kind; p->lsize = size; p->lW = W; snprintf(p->name, sizeof p->name, "%s:%d", LKN[kind], size);
+  return 1;
+}
+static int large_sim(const prog_t * p, timing_t tm, int imp, sched_t * s) {
+  if (p->lkind == LK_WIDE_HF) return sim_helpfirst(p, tm, p->lW, imp, s);
+  DPOLICY = 1; int ok = sim_run(p, tm, p->lW, imp, 1 << 30, s, 0); DPOLICY = 0;
+  if (s->nsteal) snprintf(s->steals, sizeof s->steals, "steal-whenever-idle:%d", s->nsteal); else s->steals[0] = 0;
+  return ok;
+}
+/* "wide-hf:150" -> kind, size */
+static int large_name(const char * name, int * kind, int * size) {
+  for (int k = 0; k < LK_N; k++) { size_t l = strlen(LKN[k]); if (!strncmp(name, LKN[k], l) && name[l] == ':') { *kind = k; *size = atoi(name + l + 1); return *size > 0 && *size <= 5000; } }
+  return 0;
+}
+
 static void enumerate_program(int pi, const pos_t * rs) {
   static prog_t p; static sched_t s; static oracle_t o;
-  if (!prog_parse(&p, PROGS[pi])) { SLOT->engine_error = 1; return; }
+  int large = pi < NLARGE, Wlo = 1, Whi = MAXW;
+  if (large) { if (!large_parse(&p, LARGE[pi].kind, LARGE[pi].size, LARGE[pi].W)) { SLOT->engine_error = 1; return; } Wlo = Whi = LARGE[pi].W; }
+  else if (!prog_parse(&p, PROGS[pi - NLARGE])) { SLOT->engine_error = 1; return; }
   int resuming = rs != NULL;
   for (int tmi = resuming ? rs->tmi : 0; tmi < NTIMINGS; tmi++)
     for (int imp = resuming ? rs->imp : 0; imp < (p.nimplicit && tmi == 0 ? 2 : 1); imp++)    /* implicit opening: with the first timing only */
-      for (int W = resuming ? rs->W : 1; W <= MAXW; W++) {
+      for (int W = resuming ? rs->W : Wlo; W <= Whi; W++) {
 	int preflen = 0;
 	if (resuming) { memcpy(s.ch, rs->ch, sizeof s.ch); preflen = rs->nch; }
 	for (;;) {
-	  if (!sim_run(&p, TIMINGS[tmi], W, imp, MAXSTEAL, &s, preflen) || !oracle_compute(&p, &s, &o)) {
-	    SLOT->engine_error = 1; fprintf(stderr, "engine error: P=%s W=%d\n", p.str, W); return;
+	  if (!(large ? large_sim(&p, TIMINGS[tmi], imp, &s) : sim_run(&p, TIMINGS[tmi], W, imp, MAXSTEAL, &s, preflen)) || !oracle_compute(&p, &s, &o)) {
+	    SLOT->engine_error = 1; fprintf(stderr, "engine error: P=%s W=%d\n", p.name, W); return;
 	  }
 	  int ran = 0;
 	  CASE.p = &p; CASE.s = &s; CASE.o = &o; CASE.tm = TIMINGS[tmi]; CASE.tmi = tmi; CASE.imp = imp; CASE.W = W;
@@ -714,12 +863,13 @@ static void enumerate_program(int pi, const pos_t * rs) {
 	      run_case();
 	      SLOT->transitions += N_CALLS - c0;
 	      SLOT->pos.have_base = HAVE_BASE; if (HAVE_BASE) memcpy(SLOT->pos.base, BASE, sizeof BASE);
-	      if (SLOT->nsample < 3 && (SLOT->states % 9973) == 77) snprintf(SLOT->sample[SLOT->nsample++], 220, "%s", CASE.key);
+	      if (large) { SLOT->large++; if (!SLOT->large_sample[0] && p.lkind == LK_WIDE_HF && p.lsize > 100) snprintf(SLOT->large_sample, 220, "%s", CASE.key); }
+	      else if (SLOT->nsample < 3 && (SLOT->states % 9973) == 77) snprintf(SLOT->sample[SLOT->nsample++], 220, "%s", CASE.key);
 	    }
 	  }
 	  resuming = 0;
-	  SLOT->groups++; SLOT->schedules += ran || count_only;
-	  if (!sched_next(&s, &preflen)) break;
+	  SLOT->groups++; if (!large) SLOT->schedules += ran || count_only;
+	  if (large || !sched_next(&s, &preflen)) break;
 	}
       }
 }
@@ -736,7 +886,7 @@ static void worker_main(int k, const pos_t * rs) {
   if (rs) enumerate_program(rs->p, rs);
   for (;;) {
     long pi = __sync_fetch_and_add(NEXT_PROG, 1);
-    if (pi >= NPROGS) break;
+    if (pi >= NLARGE + NPROGS) break;
     enumerate_program((int)pi, NULL);
     if (SLOT->engine_error) break;
   }
@@ -756,11 +906,12 @@ static int replay_one(const char * key) {
   char ps[64], sb[120], ob[100]; int pat, gap, W, nf; char b;
   if (sscanf(key, "P=%63s T=%d/%d B=%c W=%d S=%119s O=%99s F=%d", ps, &pat, &gap, &b, &W, sb, ob, &nf) != 8) { fprintf(stderr, "cannot parse case: %s\n", key); return 2; }
   if (!strncmp(ps, "(root-only)", 11)) ps[0] = 0;
-  if (!prog_parse(&p, ps)) { fprintf(stderr, "bad program %s\n", ps); return 2; }
+  int lk, lsz, large = large_name(ps, &lk, &lsz);
+  if (!(large ? large_parse(&p, lk, lsz, W) : prog_parse(&p, ps))) { fprintf(stderr, "bad program %s\n", ps); return 2; }
   int preflen = 0; char * q = sb;
-  if (*q != '-') while (*q && *q != '(') { s.ch[preflen++] = (int)strtol(q, &q, 10); if (*q == '.') q++; }
+  if (*q != '-') while (*q && *q != '(' && preflen < MAXCH) { s.ch[preflen++] = (int)strtol(q, &q, 10); if (*q == '.') q++; }
   timing_t tm = { pat, gap };
-  if (!sim_run(&p, tm, W, b == 'i', 99, &s, preflen) || !oracle_compute(&p, &s, &o)) { fprintf(stderr, "engine error\n"); return 2; }
+  if (!(large ? large_sim(&p, tm, b == 'i', &s) : sim_run(&p, tm, W, b == 'i', 99, &s, preflen)) || !oracle_compute(&p, &s, &o)) { fprintf(stderr, "engine error\n"); return 2; }
   static slot_t sl; SLOT = &sl;
   CASE.p = &p; CASE.s = &s; CASE.o = &o; CASE.tm = tm; CASE.imp = b == 'i'; CASE.W = W; CASE.nf = nf; CASE.oi = 1; CASE.verbose = 1;
   if (!opt_parse(ob, &CASE.opt)) { fprintf(stderr, "bad options %s\n", ob); return 2; }
@@ -799,6 +950,7 @@ static void set_tier(int thorough, int nfmax_quick, int nfmax_thorough) {
     gen_programs(4, 3, 3);
   }
   make_opts(thorough);
+  make_large(thorough);
 }
 
 static int dag_main(int argc, char ** argv, const char * property, const char * component, const char * engine, int nfq, int nft, const char * what) {
@@ -818,7 +970,7 @@ static int dag_main(int argc, char ** argv, const char * property, const char * 
   set_tier(thorough, nfq, nft);
   if (nproc <= 0) { nproc = (int)sysconf(_SC_NPROCESSORS_ONLN); if (nproc > 16) nproc = 16; if (nproc < 1) nproc = 1; }
   NPROC = nproc;
-  if (getenv("DAG_LIMIT")) { long l = atol(getenv("DAG_LIMIT")); if (l > 0 && l < NPROGS) { NPROGS = l; SQ.exhaustive = 0; } }   /* development aid only */
+  if (getenv("DAG_LIMIT")) { long l = atol(getenv("DAG_LIMIT")); if (l >= 0 && l < NPROGS) { NPROGS = l; SQ.exhaustive = 0; } }   /* development aid only (0: the large executions alone) */
   SLOTS = mmap(NULL, sizeof(slot_t) * NPROC + 64, PROT_READ | PROT_WRITE, MAP_SHARED | MAP_ANONYMOUS, -1, 0);
   if (SLOTS == MAP_FAILED) { perror("mmap"); SQ.engine_error = 1; return sq_end(stats); }
   NEXT_PROG = (volatile long *)&SLOTS[NPROC];
@@ -854,12 +1006,14 @@ static int dag_main(int argc, char ** argv, const char * property, const char * 
     pids[k] = fork(); if (pids[k] == 0) worker_main(k, &rs); if (pids[k] < 0) { SQ.engine_error = 1; live--; }
   }
   /* merge */
-  static cls_t all[MAXCLS * 2]; int nall = 0; long traps = 0, schedules = 0, groups = 0, aux[4] = { 0 };
+  static cls_t all[MAXCLS * 2]; int nall = 0, large_sampled = 0; long traps = 0, schedules = 0, groups = 0, aux[4] = { 0 }, nlarge_cases = 0;
+  for (int k = 0; k < NPROC; k++) if (SLOTS[k].large_sample[0] && !large_sampled) { large_sampled = 1; sq_sample("%s", SLOTS[k].large_sample); }
   for (int k = 0; k < NPROC + 1; k++) {
     cls_t * src; int n;
     if (k < NPROC) { slot_t * sl = &SLOTS[k]; SQ.states += sl->states; SQ.transitions += sl->transitions; SQ.evaluations += sl->evaluations; traps += sl->traps; schedules += sl->schedules; groups += sl->groups;
       for (int a = 0; a < 4; a++) aux[a] += sl->aux[a];
       if (sl->engine_error || sl->cls_overflow) SQ.engine_error = 1; src = sl->cls; n = sl->ncls;
+      nlarge_cases += sl->large;
       for (int i = 0; i < sl->nsample && k < 3; i++) sq_sample("%s", sl->sample[i]);
     } else { src = crash_cls; n = ncrash_cls; }
     for (int i = 0; i < n; i++) {
@@ -890,7 +1044,9 @@ static int dag_main(int argc, char ** argv, const char * property, const char * 
   sq_detail("%s; %ld programs (<= %d tasks, <= %d sections in all, nesting <= 2, <= 2 creates per section, <= 1 other per task) x %d timing(s) (+ implicit section opening with the first) x W=1..%d: %ld schedules (<= %d steals/migrations), x %d option settings",
 	    what, NPROGS, GB.maxt, GB.maxsec, NTIMINGS, MAXW, schedules, MAXSTEAL, NOPTS);
   if (NFMAX > 1) sq_detail(" x 1..%d file names", NFMAX);
-  sq_detail(" = %ld cases on %d processes;", SQ.states, NPROC);
+  sq_detail(" = %ld enumerated cases; + %d large executions, not enumerated, one schedule each (", SQ.states - nlarge_cases, NLARGE);
+  for (int i = 0; i < NLARGE; i++) sq_detail("%s%s:%d/W%d", i ? " " : "", LKN[LARGE[i].kind], LARGE[i].size, LARGE[i].W);
+  sq_detail(") under the same timings / option settings = %ld cases; %ld cases in all on %d processes;", nlarge_cases, SQ.states, NPROC);
   for (int a = 0; a < 4; a++) if (AUX_NAMES[a]) sq_detail(" %ld %s,", aux[a], AUX_NAMES[a]);
   sq_detail(" %ld trapped aborts, %ld process crashes; disagreement classes:", traps, crashes);
   for (int j = 0; j < nall; j++) sq_detail(" [%s x%ld]", all[j].cls, all[j].count);
